@@ -80,6 +80,8 @@ def run(ctx):
     ctx.assumptions += [
         "PDUs are compared through the descriptor (kind, encoded length, 32-bit digest of the re-encoding by write_pdu)",
         "the stream holds complete PDUs only; after the last PDU the transport reports end of stream",
+        "real-size family: receivers with max_pdu_length 1018 / 4096 / 16384 (strict and not), 2-6 P-DATA-TF PDUs of length max-9..max "
+        "coalesced in single reads, 4 KiB / 64 KiB reads and max+5/+6/+7 byte segments",
         "exhaustive segmentations ('all') only for streams of at most 10 (quick) / 13 (thorough) bytes; longer streams with the "
         "edge-focused, coarse and one-byte segmentation styles and by seeded sampling",
     ]
@@ -122,11 +124,14 @@ def run(ctx):
         ctx.sample(json.loads(lines[i]))
 
     # 3. seeded random sequences of real PDUs of all kinds
-    rep2 = vlib.run_driver("drv_pdu", ["wire-random", "--n", 150 if q else 3000, "--out", ctx.path("random")], env=ctx.env())
+    rep2 = vlib.run_driver("drv_pdu", ["wire-random", "--n", 150 if q else 3000, "--big", 72 if q else 720, "--out", ctx.path("random")], env=ctx.env())
     ctx.cov["evaluations"] += rep2["wire_cases"]
     need = {"rq", "ac", "rj", "pdata", "rrq", "rrp", "abort", "unknown"}
     if not need <= set(rep2["kinds"]):
         raise vlib.ToolError("vacuity: PDU kinds missing from the random sequences: %s" % sorted(need - set(rep2["kinds"])))
+    if rep2.get("big_cases", 0) < 100:
+        raise vlib.ToolError("vacuity: only %s real-size receive cases (max 1018/4096/16384, coalesced near-maximum P-DATA)" % rep2.get("big_cases"))
+    ctx.extra_cov["real_size_receive_cases"] = rep2["big_cases"]
     for tf in rep2["trace_files"]:
         events += judge(ctx, tf["path"], "seeded random PDU sequences")
     nontrivial += rep2["wire_cases"]
